@@ -195,3 +195,169 @@ Proof.
   apply Permutation.perm_trans with [0; 2; 1]%nat; [apply Permutation.perm_skip, Permutation.perm_swap|].
   apply Permutation.perm_trans with [2; 0; 1]%nat; [apply Permutation.perm_swap|apply Permutation.Permutation_refl].
 Qed.
+
+(* ---- output dtype of the wrappers (C01/Dtype.v: the steps of _register.inner + _return_results of the 1-D and
+   2-D wrappers on dtypes; tied to the source by the probe-method correspondence of harness/c01_dtype.py).
+   For EVERY flag combination (1-D/2-D, skip_sorting, sorted/unsorted, layout, stacks, reshape, check_finite),
+   every ENTRY PATH (object built with its axes; first call of an object built without -- _yx_arrays / _yxz_arrays
+   generate them; a later call on that object; module-level function without / with x_data), every output_dtype,
+   every input kind and whatever dtypes the method body returns: *)
+(* Require without Import: the short names of C01/Dtype.v (result, input, flags, inner, ...) stay out of scope here *)
+From PB Require C01.Dtype C01.DtypeProofs.
+
+(* a returning call has the documented dtype (the output_dtype in force -- the one given at construction, none in
+   the functional interface -- else the dtype of the data as passed, else -- data=None -- what the method
+   produced); the method body receives float64; params keep their dtype *)
+Theorem C01_dtype_rule : forall (f : Dtype.flags) (out : option Dtype.dt) (i : Dtype.input) (bd pd : Dtype.dt) (r : Dtype.result),
+  Dtype.inner f out i bd pd = Some r ->
+  Dtype.r_ret r = Dtype.documented (Dtype.eff_out (Dtype.entry f) out) i bd /\
+  Dtype.r_received r = Dtype.F64 /\ Dtype.r_params r = pd.
+Proof. exact DtypeProofs.inner_rule. Qed.
+Print Assumptions C01_dtype_rule.
+
+(* the only dtype-related raises of the wrappers: data=None in 2-D, or in 1-D while the object has no x *)
+Theorem C01_dtype_raises : forall (f : Dtype.flags) (out : option Dtype.dt) (i : Dtype.input) (bd pd : Dtype.dt),
+  Dtype.inner f out i bd pd = None <->
+  (i = Dtype.NoData /\ (Dtype.two_d f = true \/ Dtype.generates (Dtype.entry f) = true)).
+Proof. exact DtypeProofs.inner_raises. Qed.
+Print Assumptions C01_dtype_raises.
+
+(* no flag and no entry path matters beyond "is data=None accepted" and "which output_dtype is in force" *)
+Theorem C01_dtype_flag_independent : forall (f g : Dtype.flags) (out out' : option Dtype.dt) (i : Dtype.input) (bd pd : Dtype.dt),
+  DtypeProofs.raises f i = DtypeProofs.raises g i ->
+  Dtype.eff_out (Dtype.entry f) out = Dtype.eff_out (Dtype.entry g) out' ->
+  Dtype.inner f out i bd pd = Dtype.inner g out' i bd pd.
+Proof. exact DtypeProofs.inner_flag_independent. Qed.
+Print Assumptions C01_dtype_flag_independent.
+
+(* in particular, with no output_dtype the result for given data is the same on EVERY entry path (and for
+   every other flag, 1-D or 2-D): first call without x, later call, object with x, functional interface *)
+Theorem C01_dtype_entry_independent : forall (f g : Dtype.flags) (i : Dtype.input) (bd pd : Dtype.dt),
+  i <> Dtype.NoData -> Dtype.inner f None i bd pd = Dtype.inner g None i bd pd.
+Proof. exact DtypeProofs.inner_entry_independent. Qed.
+Print Assumptions C01_dtype_entry_independent.
+
+(* the variant that casts the data to float BEFORE the dtype is recorded returns float64 for every
+   non-float64 array when no output_dtype was given, where the source returns the input's dtype *)
+Theorem C01_dtype_cast_first_refuted : forall (f : Dtype.flags) (d bd pd : Dtype.dt), d <> Dtype.F64 ->
+  exists r s, Dtype.inner f None (Dtype.Arr d) bd pd = Some r /\ Dtype.inner_cast_first f None (Dtype.Arr d) bd pd = Some s /\
+              Dtype.r_ret r = d /\ Dtype.r_ret s = Dtype.F64.
+Proof. exact DtypeProofs.cast_first_differs. Qed.
+Print Assumptions C01_dtype_cast_first_refuted.
+
+(* the variant in which the axis-GENERATING helper (_yx_arrays / _yxz_arrays) casts y to float64: float64 instead of
+   the input's dtype on the first call of an object without axes and in the functional interface without x_data ... *)
+Theorem C01_dtype_helper_casts_refuted : forall (f : Dtype.flags) (d bd pd : Dtype.dt),
+  Dtype.generates (Dtype.entry f) = true -> d <> Dtype.F64 ->
+  exists r s, Dtype.inner f None (Dtype.Arr d) bd pd = Some r /\ Dtype.inner_helper_casts f None (Dtype.Arr d) bd pd = Some s /\
+              Dtype.r_ret r = d /\ Dtype.r_ret s = Dtype.F64.
+Proof. exact DtypeProofs.helper_casts_differs. Qed.
+Print Assumptions C01_dtype_helper_casts_refuted.
+
+(* ... and indistinguishable from the source on every other path (objects with axes, later calls, x_data given) *)
+Theorem C01_dtype_helper_casts_only_first : forall (f : Dtype.flags) (out : option Dtype.dt) (i : Dtype.input) (bd pd : Dtype.dt),
+  Dtype.generates (Dtype.entry f) = false -> Dtype.inner_helper_casts f out i bd pd = Dtype.inner f out i bd pd.
+Proof. exact DtypeProofs.helper_casts_same. Qed.
+Print Assumptions C01_dtype_helper_casts_only_first.
+
+Example C01_dtype_nonvacuous :
+  Dtype.inner {| Dtype.two_d := true; Dtype.skip_sorting := false; Dtype.unsorted := true; Dtype.flat_layout := false;
+                 Dtype.stack := false; Dtype.reshape_out := true; Dtype.check_finite := true;
+                 Dtype.entry := Dtype.WithAxes Dtype.AxBoth |}
+              None (Dtype.Arr Dtype.F32) Dtype.F64 Dtype.Bool
+  = Some {| Dtype.r_received := Dtype.F64; Dtype.r_ret := Dtype.F32; Dtype.r_params := Dtype.Bool |}
+  /\ Dtype.generates Dtype.NoAxesFirst = true /\ Dtype.generates Dtype.NoAxesLater = false.
+Proof. repeat split. Qed.
+
+(* ---- methods with a NESTED convergence record (brpls, pspline_brpls in 1-D and 2-D, goldindec):
+   the two-level loop of C01/Nested.v over abstract oracles, parameterised by the bookkeeping that
+   tools/gen_loops.py (GenNested) extracts from the source on every run (coq/gen/GenNested.v) ---- *)
+From PB Require C01.Nested C01.NestedProofs gen.GenNested.
+
+(* the generated table covers exactly the methods GenLoops lists as nested, and every descriptor
+   passes the syntactic conditions (row / column offsets inside the allocation, slice ending at the
+   last pass, early exit discarding the unfinished pass and ending the outer loop, np.zeros) *)
+Theorem C01_nested_source_checked :
+  map fst GenNested.nested_descs = nested_loops /\
+  forallb (fun p => Nested.nested_ok (snd p)) GenNested.nested_descs = true.
+Proof. vm_compute. split; reflexivity. Qed.
+Print Assumptions C01_nested_source_checked.
+
+(* for EVERY max_iter, max_iter_2 and EVERY oracle: the call fails exactly when one of the two ranges
+   is empty (UnboundLocalError) -- no store is ever out of bounds *)
+Theorem C01_nested_no_index_error : forall (St D : Type) (istep : nat -> nat -> St -> St * Nested.ires D)
+    (ostep : nat -> St -> bool -> list D * bool * St) (n : Nested.ndesc) (m m2 : Z) (s0 : St),
+  Nested.nested_ok n = true ->
+  (Nested.n_early n = false -> forall i j s, snd (istep i j s) <> Nested.IEarly) ->
+  (Nested.nested St D istep ostep n m m2 s0 = None <->
+   (Nested.obudget n m2 = 0 \/ Nested.ibudget n m = 0)%nat).
+Proof. intros St D istep ostep n m m2 s0 Hok He. exact (NestedProofs.nested_none_iff St D istep ostep n m m2 Hok He s0). Qed.
+Print Assumptions C01_nested_no_index_error.
+
+(* the returned record tol_history[:i + r, :max(i, j_max) + c]: the slice is never clamped; it has at
+   most max_iter_2 + n_arows rows and max(max_iter, max_iter_2) + n_acols columns; it cuts off no
+   recorded value; every cell of it is a recorded value or a zero of np.zeros (never garbage) *)
+Theorem C01_nested_record : forall (St D : Type) (istep : nat -> nat -> St -> St * Nested.ires D)
+    (ostep : nat -> St -> bool -> list D * bool * St) (n : Nested.ndesc) (m m2 : Z) (s0 : St) (x : Nested.nres St D),
+  Nested.nested_ok n = true ->
+  (Nested.n_early n = false -> forall i j s, snd (istep i j s) <> Nested.IEarly) ->
+  Nested.nested St D istep ostep n m m2 s0 = Some x ->
+  Nested.ret_rows St D n m2 x = (Z.of_nat (Nested.x_i x) + Nested.n_srow n)%Z /\
+  Nested.ret_cols St D n m m2 x = (Z.max (Z.of_nat (Nested.x_i x)) (Nested.x_jmax x) + Nested.n_scol n)%Z /\
+  (1 <= Nested.ret_rows St D n m2 x <= m2 + Nested.n_arows n)%Z /\
+  (1 <= Nested.ret_cols St D n m m2 x <= Z.max m m2 + Nested.n_acols n)%Z /\
+  (Nested.x_passes x <= Nested.obudget n m2)%nat /\
+  Forall (fun e => (0 <= NestedProofs.er D e < Nested.ret_rows St D n m2 x)%Z /\
+                   (0 <= NestedProofs.ec D e < Nested.ret_cols St D n m m2 x)%Z) (Nested.x_tab x) /\
+  (forall r c, Nested.ret_cell St D n x r c <> Nested.Garbage).
+Proof. intros St D istep ostep n m m2 s0 x Hok He. exact (NestedProofs.nested_record St D istep ostep n m m2 Hok He s0 x). Qed.
+Print Assumptions C01_nested_record.
+
+(* hence, for the methods in the generated table: at most max_iter_2 + 2 rows and
+   max(max_iter, max_iter_2) + 1 columns *)
+Theorem C01_nested_source_record_bound : forall name n, In (name, n) GenNested.nested_descs ->
+  forall (St D : Type) (istep : nat -> nat -> St -> St * Nested.ires D)
+         (ostep : nat -> St -> bool -> list D * bool * St) (m m2 : Z) (s0 : St) (x : Nested.nres St D),
+  (Nested.n_early n = false -> forall i j s, snd (istep i j s) <> Nested.IEarly) ->
+  Nested.nested St D istep ostep n m m2 s0 = Some x ->
+  (Nested.ret_rows St D n m2 x <= m2 + 2)%Z /\ (Nested.ret_cols St D n m m2 x <= Z.max m m2 + 1)%Z.
+Proof.
+  intros name n Hin St D istep ostep m m2 s0 x He Hx.
+  assert (Hall : forallb (fun p => Nested.nested_ok (snd p) && (Nested.n_arows (snd p) <=? 2)%Z && (Nested.n_acols (snd p) <=? 1)%Z)
+                         GenNested.nested_descs = true) by (vm_compute; reflexivity).
+  rewrite forallb_forall in Hall. specialize (Hall _ Hin). cbn [snd] in Hall.
+  apply andb_prop in Hall. destruct Hall as [Hall Hc]. apply andb_prop in Hall. destruct Hall as [Hok Hr].
+  destruct (NestedProofs.nested_record St D istep ostep n m m2 Hok He s0 x Hx) as (_ & _ & (_ & H1) & (_ & H2) & _).
+  apply Z.leb_le in Hr. apply Z.leb_le in Hc. split; [apply (Z.le_trans _ _ _ H1)|apply (Z.le_trans _ _ _ H2)].
+  - apply Z.add_le_mono_l. exact Hr.
+  - apply Z.add_le_mono_l. exact Hc.
+Qed.
+Print Assumptions C01_nested_source_record_bound.
+
+(* an inner early exit ends the outer loop in that very pass (brpls: tol_2 is forced to inf) *)
+Theorem C01_nested_early_exit_ends_outer : forall (St D : Type) (istep : nat -> nat -> St -> St * Nested.ires D)
+    (ostep : nat -> St -> bool -> list D * bool * St) (n : Nested.ndesc) (m m2 : Z),
+  Nested.nested_ok n = true ->
+  forall fuel i s jmax t s1 j t1, Nested.n_early n = true -> (i < Nested.obudget n m2)%nat ->
+  Nested.inner St D istep n m m2 (Nested.ibudget n m) 0 i s t = Some (s1, j, true, t1) ->
+  exists x, Nested.outer St D istep ostep n m m2 (S fuel) i s jmax t = Some x /\ Nested.x_i x = i.
+Proof.
+  intros St D istep ostep n m m2 Hok fuel i s jmax t s1 j t1 He.
+  assert (Hv : Nested.n_early n = false -> forall i j s, snd (istep i j s) <> Nested.IEarly)
+    by (intros Hf; rewrite Hf in He; discriminate).
+  exact (NestedProofs.early_ends_outer St D istep ostep n m m2 Hok Hv fuel i s jmax t s1 j t1 He).
+Qed.
+Print Assumptions C01_nested_early_exit_ends_outer.
+
+(* non-vacuity: brpls bookkeeping, 2 outer passes; the second inner loop leaves through the early exit *)
+Example C01_nested_nonvacuous :
+  let n := {| Nested.n_ostop := 1; Nested.n_istop := 1; Nested.n_arows := 2; Nested.n_acols := 1; Nested.n_irow := 1;
+              Nested.n_orows := 1; Nested.n_srow := 2; Nested.n_scol := 1; Nested.n_early := true; Nested.n_decr := 1;
+              Nested.n_force := true; Nested.n_zeros := true |} in
+  Nested.nested_ok n = true /\
+  match Nested.nested nat nat (fun i j s => (S s, if Nat.eqb s 4 then Nested.IEarly else Nested.IRec (10 * i + j)%nat (Nat.eqb j 2)))
+                      (fun i s e => ([100 + i]%nat, false, s)) n 3 5 0%nat with
+  | Some x => Nested.x_i x = 1%nat /\ Nested.ret_rows nat nat n 5 x = 3%Z /\ Nested.ret_cols nat nat n 3 5 x = 3%Z
+  | None => False
+  end.
+Proof. vm_compute. repeat split. Qed.
